@@ -12,8 +12,13 @@ package state
 // rlp.Decode into an Account: outside the model (C14); only the decoded record is used.
 //@ effectfree bytes.NewReader
 
-// common.BytesToHash builds a Hash value from a byte slice: no effect on any modelled object
-//@ effectfree github.com/youchainhq/go-youchain/common.BytesToHash
+// (common.BytesToHash: trusted thin contract in /verif/specs/stdlib/c19_common.spec)
+
+// NewStateSync: the state scheduler is a trie scheduler for the state root over the given database WITH the account-leaf callback below
+// (trie.NewSync without callback — state.NewSync — follows no storage tries and no code: it is for plain tries only).
+//@ func NewStateSync props C19
+//@ modifies all, c19Kids, c19Known
+//@ assert before call trie.NewSync: [state-sync-registers-the-leaf-callback] a0 == root && a1 == database && a2 != nil
 
 //@ func NewStateSync$1 props C19
 //@ modifies all, c19Kids, c19Known
